@@ -183,3 +183,8 @@ def run(ctx):
                         name, rigid.generalise(path), small), "%s: before %s after undo %s" % (path, e, g), wit)
             except Exception as e:  # noqa
                 ctx.violation("C05/%s.translate_rotate/undo-raises-%s" % (name, type(e).__name__), repr(e)[:300], wit)
+
+    # ambient workload (thorough tier): the repository's own tests with the contracts installed
+    if not ctx.quick and ctx.shard == 0 and ctx.only is None:
+        from vf.ambient import run_ambient
+        run_ambient(ctx, ['rigid'])
